@@ -15,7 +15,7 @@ import pyPRISM
 
 PID = 'C08'
 RULE = ('cases = (family gaussian | yukawa | exponential | sphere indicator, width resolved by >= 8 coarse grid points and decayed to < 1e-12 at r_max, '
-        'amplitude 1e-3..1e3 of either sign, r_max in 25.6|51.2|102.4, coarse dr in 0.2|0.1|0.05 (0.4 for wide functions), 3 levels quick / 4 thorough); '
+        'amplitude 1e-3..1e3 of either sign, r_max in 25.6|51.2|102.4, coarse dr in 0.2|0.1|0.05 (0.4 for wide functions), 3 levels quick / 4 thorough; the levels are fresh Domains (dr or dk constructor) or ONE Domain refined through its dr/dk/length setters in either order); '
         'each case = one refinement family judged at ~60 fixed wavenumbers, the k->0 limit and (gaussian/exponential) ~30 fixed r; '
         'non-trivial = all levels executed and at least one fixed-k error above the noise floor; distinct = distinct case digests')
 ASSUMPTIONS = ['closed forms: gaussian (pi/a)^1.5 exp(-k^2/4a); yukawa 4pi/(k^2+kappa^2); exponential 8 pi kappa/(k^2+kappa^2)^2; sphere 4pi(sin kR - kR cos kR)/k^3',
@@ -44,7 +44,8 @@ def cases(ctx):
         else:
             w = float(dr0 * rng.integers(8, int(0.5 * rmax / dr0)))
         yield {'kind': kind, 'w': w, 'A': float(10 ** rng.uniform(-3, 3) * rng.choice([-1, 1])), 'rmax': rmax, 'dr0': dr0,
-               'levels': 4 if ctx.thorough() else 3}
+               'levels': 4 if ctx.thorough() else 3,
+               'how': str(rng.choice(['fresh', 'fresh', 'fresh_dk', 'refine_dr_then_length', 'refine_length_then_dr', 'refine_length_then_dk']))}
 
 
 def analytic(kind, w, A, r, k):
@@ -70,10 +71,24 @@ def quad0(x, y):
 def run_case(ctx, case):
     kind, w, A, rmax, dr0, levels = case['kind'], case['w'], case['A'], case['rmax'], case['dr0'], int(case['levels'])
     fam = []
+    d = None
+    how = case.get('how', 'fresh')
     for lv in range(levels):
         dr = dr0 / 2 ** lv
         L = int(round(rmax / dr))
-        d = pyPRISM.Domain(length=L, dr=dr)
+        if how == 'fresh' or d is None:
+            d = pyPRISM.Domain(length=L, dr=dr) if how != 'fresh_dk' else pyPRISM.Domain(length=L, dk=math.pi / rmax)
+        elif how == 'fresh_dk':
+            d = pyPRISM.Domain(length=L, dk=math.pi / rmax)
+        elif how == 'refine_dr_then_length':
+            d.dr = dr
+            d.length = L
+        elif how == 'refine_length_then_dr':
+            d.length = L
+            d.dr = dr
+        else:                                  # at fixed r_max dk does not change: only the length has to be doubled
+            d.length = L
+            d.dk = math.pi / rmax
         r, k = np.asarray(d.r), np.asarray(d.k)
         f, F, V = analytic(kind, w, A, r, k)
         fam.append({'dr': dr, 'L': L, 'r': r, 'k': k, 'f': f, 'F': F, 'V': V, 'Fn': np.asarray(d.to_fourier(f)), 'fn': np.asarray(d.to_real(F))})
@@ -188,5 +203,6 @@ def run_case(ctx, case):
     ctx.count('family', kind)
     ctx.count('rmax', rmax)
     ctx.count('dr0', dr0)
+    ctx.count('levels_reached_by', how)
     ctx.sample({'function': kind, 'width': w, 'amplitude': A, 'r_max': rmax, 'dr_levels': [m['dr'] for m in fam], 'max_rel_err_per_level': emax.tolist(),
                 'richardson_err': rich, 'k0_err': e0}, limit=6)
